@@ -8,26 +8,26 @@ TECH = "deterministic simulation with fault injection: seeded search over schedu
 
 # property -> (level category, engine, text, note, technique suffix)
 CLAIMS = {
-    "C01": ("exploration", "chunk+syncnet+aionet", "Seeded search over packet sequences x chunkings x receive paths x buffer sizes for every serializer of the matrix; oracle = the list that was sent. Sampling, not proof: a clean batch is evidence.", "Trusted: the packet generators' stated domains; value equality of decoded packets. T1 has no stub at all (the network is the list of cuts); T2 stubs socket/selector.", "chunk-schedule search against the sent list"),
+    "C01": ("exploration", "chunk+syncnet+aionet", "Seeded search over packet sequences x chunkings x receive paths x buffer sizes for every serializer of the matrix; oracle = the list that was sent; also 2-3 consumers built from ONE protocol object with interleaved reads (state leaking through the shared serializer). Sampling, not proof: a clean batch is evidence.", "Trusted: the packet generators' stated domains; value equality of decoded packets. T1 has no stub at all (the network is the list of cuts); T2 stubs socket/selector.", "chunk-schedule search against the sent list"),
     "C02": ("exploration", "chunk", "Seeded search over frame streams (valid/undecodable/empty/band/oversized) x chunkings x both receive paths; oracle = executable frame-by-frame reference decoder and the resume-after-rejection clause.", "Trusted: reference decoder (bytes.find splitting + fresh one-shot deserialize); alphabets that make junk attributable.", "chunk-schedule search against a frame-by-frame reference model"),
     "C03": ("exploration", "syncnet+aionet", "Simulated peer writes a stream and closes at a chosen position; caller histories of recv_packet/iter_received_packets with timeouts; history oracle (prefix, sticky EOF, no wait after EOF, justified TimeoutError).", "Trusted: SimSocket/SimSelector fidelity for recv/EOF/EAGAIN; world knows byte visibility times.", "simulated peer close positions x call histories, history check"),
-    "C04": ("exploration", "syncnet+aionet+tls", "Generated chunk lists incl. empty chunks sent through every transport under short writes/EAGAIN/EINTR/reset; byte-exact oracle at the peer, budget on time and socket operations, loop spin detector.", "Trusted: SimSocket send/sendmsg semantics (short counts, EAGAIN, EPIPE).", "per-call fault sequences, byte-exact peer oracle, spin/livelock detectors"),
-    "C05": ("exploration", "syncnet+aionet", "Datagram net with loss/dup/reorder/malformed datagrams; each outcome compared with decoding that datagram alone with a fresh protocol; one sendto per send_packet.", "Trusted: datagram SimSocket semantics; fresh-serializer reference.", "datagram fault interleavings against decode-alone reference"),
+    "C04": ("exploration", "syncnet+aionet+tls", "Generated chunk lists incl. empty chunks sent through every transport under short writes/EAGAIN/EINTR/reset; byte-exact oracle at the peer, budget on time and socket operations, loop spin detector; histories: a send suspended by back-pressure is abandoned by its time budget, the peer drains, later sends must complete (a hung send is a violation).", "Trusted: SimSocket send/sendmsg semantics (short counts, EAGAIN, EPIPE).", "per-call fault sequences, byte-exact peer oracle, spin/livelock detectors"),
+    "C05": ("exploration", "syncnet+aionet", "Datagram net with loss/dup/reorder/malformed datagrams; each outcome compared with decoding that datagram alone with a fresh protocol; one sendto per send_packet; asyncio receives under zero/short timeouts, iter_received_packets and external cancellation (an interrupted receive consumes no datagram).", "Trusted: datagram SimSocket semantics; fresh-serializer reference.", "datagram fault interleavings against decode-alone reference"),
     "C06": ("exploration", "chunk", "Corruption of valid traffic in flight + structurally extreme inputs + random bytes, delivered with chunkings into the three modes; oracle = exception-type totality, strict progress, watchdog.", "One-shot part is input generation (said so in DESIGN); limits <= 64 KiB.", "in-flight corruption x chunking, exception totality and progress oracle"),
     "C07": ("exploration", "chunk", "Slow-loris peer and several-frames-per-read workloads over limits/separators/chunkings; behavioural bound oracle.", "Trusted: the bound arithmetic derived from the property text (limit + one read + one separator).", "slow-loris peer simulation, behavioural limit bound"),
-    "C08": ("exploration", "tls", "Two writers + two readers over a TLS transport against an independent stdlib ssl peer; cipher-text fragmentation, delays, bounded capacity, three peer shapes; plaintext equality, no plaintext marker on the wire, deadlock detector.", "Trusted: stdlib ssl/OpenSSL as reference peer; cipher-text content is not reproducible, lengths are.", "full-duplex schedule search against a reference TLS peer"),
-    "C09": ("fault_enumeration", "tls", "For seeded base scenarios, FIN is injected after every (thorough) / every structurally interesting (quick) byte offset of the peer's cipher-text, for both roles, TLS 1.2/1.3, both modes, async and blocking transports.", "Complete only for the base scenarios swept; cipher-text lengths assumed reproducible (re-measured every run).", "systematic cut-offset sweep over seeded base scenarios"),
-    "C10": ("exploration", "aionet+syncnet", "Receiver under cancel sources with arrivals aligned to the cancelling timer (same iteration both orders, adjacent iterations); numbered stream equality.", "Trusted: asyncio loop iteration structure is the real one; alignment is done by the simulator's selector.", "arrival/cancellation coincidence search, stream equality"),
-    "C11": ("exploration", "syncnet+threads", "Blocking calls under drip-feed/burst/spurious-readiness schedules on a virtual clock; elapsed <= T exactly, zero timeout never waits, TimeoutError justified by visibility times.", "Processing costs zero virtual time, so the bound is exact.", "virtual-clock arrival schedules, exact budget oracle"),
-    "C12": ("exploration", "aionet+threads", "N concurrent senders with back-pressure, short writes and resume orders; wire decodes into exactly the multiset sent, per-sender order.", "Trusted: reference decoder of self-identifying packets.", "sender interleaving search under back-pressure"),
-    "C13": ("exploration", "aioloop", "Generated scope programs with external cancels run on the real backend under virtual time; invariants A1-A6 and (restricted programs) trace equality with a reference interpreter.", "Reference interpreter models level-triggered scope semantics; ties accept both outcomes.", "generated scope programs x cancel times, invariant + reference-interpreter oracle"),
-    "C14": ("fault_enumeration", "aionet+tls", "For seeded base scenarios of every close path, task.cancel() is injected before every loop iteration, and wrapped-transport errors at every call index; everything must end closed and a second close must be prompt.", "Complete only for the base scenarios swept; a task steps at most once per loop iteration.", "cancellation-point sweep over seeded close scenarios"),
-    "C15": ("exploration", "aionet", "Real TCP server on the simulated backend, 1-3 peers, chunking/delays/restarts/timeouts/bad frames; per-connection reference sequence, close-once.", "Trusted: frame reference model; handler instrumentation.", "server schedule search against per-connection reference sequence"),
+    "C08": ("exploration", "tls", "Two writers + two readers over a TLS transport against an independent stdlib ssl peer; cipher-text fragmentation, delays, bounded capacity, three peer shapes; plaintext equality, no plaintext marker on the wire, deadlock detector; chatty variant: two writers with 30-120 back-to-back small writes (continuous hand-over of the send lock) + reader against a write-then-read peer.", "Trusted: stdlib ssl/OpenSSL as reference peer; cipher-text content is not reproducible, lengths are.", "full-duplex schedule search against a reference TLS peer"),
+    "C09": ("fault_enumeration", "tls", "For seeded base scenarios, FIN is injected after every (thorough) / every structurally interesting (quick) byte offset of the peer's cipher-text, for both roles, TLS 1.2/1.3, both modes, async and blocking transports; histories: close with unread application data, close while a writer holds the send lock; server transports also produced through AsyncTLSListener.serve.", "Complete only for the base scenarios swept; cipher-text lengths assumed reproducible (re-measured every run).", "systematic cut-offset sweep over seeded base scenarios"),
+    "C10": ("exploration", "aionet+syncnet", "Receiver under cancel sources with arrivals aligned to the cancelling timer (same iteration both orders, adjacent iterations); numbered stream equality; TLS with two concurrent writers holding/queueing for the send lock; bulk (>= 256 KiB) rescues.", "Trusted: asyncio loop iteration structure is the real one; alignment is done by the simulator's selector.", "arrival/cancellation coincidence search, stream equality"),
+    "C11": ("exploration", "syncnet+threads", "Blocking calls under drip-feed/burst/spurious-readiness schedules on a virtual clock; elapsed <= T exactly, zero timeout never waits, TimeoutError justified by visibility times; select() overshoot fault (late idle wake-ups), slack = lateness of the last select only.", "Processing costs zero virtual time, so the bound is exact.", "virtual-clock arrival schedules, exact budget oracle"),
+    "C12": ("exploration", "aionet+threads", "N concurrent senders with back-pressure, short writes and resume orders; wire decodes into exactly the multiset sent, per-sender order; cancellation of arbitrary lock waiters in the very iteration in which the owner releases (asyncio.Lock and the library FairLock), TLS queued-sender cancellation.", "Trusted: reference decoder of self-identifying packets.", "sender interleaving search under back-pressure"),
+    "C13": ("exploration", "aioloop", "Generated scope programs with external cancels run on the real backend under virtual time; invariants A1-A6 (incl. an external cancel accepted inside a shielded section: open finding D23) and (restricted programs) trace equality with a reference interpreter.", "Reference interpreter models level-triggered scope semantics; ties accept both outcomes.", "generated scope programs x cancel times, invariant + reference-interpreter oracle"),
+    "C14": ("fault_enumeration", "aionet+tls", "For seeded base scenarios of every close path, task.cancel() is injected before every loop iteration, and wrapped-transport errors at every call index; everything must end closed and a second close must be prompt; teardown of the server connection task with unsent bytes against a non-reading peer.", "Complete only for the base scenarios swept; a task steps at most once per loop iteration.", "cancellation-point sweep over seeded close scenarios"),
+    "C15": ("exploration", "aionet", "Real TCP server on the simulated backend, 1-3 peers, chunking/delays/restarts/timeouts/bad frames; per-connection reference sequence, close-once; close while a background sender holds the send lock.", "Trusted: frame reference model; handler instrumentation.", "server schedule search against per-connection reference sequence"),
     "C16": ("exploration", "aionet", "Real UDP server, 2-4 addresses, arrival order vs handler progress; per-address FIFO, <=1 active generator, liveness after arrivals stop.", "Trusted: asyncio datagram transport on SimSocket.", "datagram arrival x handler progress interleavings"),
-    "C17": ("exploration", "aionet+tls", "Exception class x hook position x set-up faults with healthy concurrent clients on TCP/TLS/UDP servers; healthy clients fully served, faulty connection closed.", "Trusted: healthy-client reference answers.", "handler/set-up fault injection with healthy-client oracle"),
+    "C17": ("exploration", "aionet+tls", "Exception class x hook position x set-up faults with healthy concurrent clients on TCP/TLS/UDP servers; healthy clients fully served, faulty connection closed; UDP re-spawn window (datagram between a handler's end and the respawned task), eager task factory as loop configuration.", "Trusted: healthy-client reference answers.", "handler/set-up fault injection with healthy-client oracle"),
     "C18": ("exploration", "aionet+threads", "Lifecycle call histories from several tasks/threads; set-of-states reference machine, no deadlock, listeners closed.", "Thread interleavings explored at synchronisation points plus bounded line-level pre-emptions.", "lifecycle history search against a nondeterministic reference state machine"),
-    "C19": ("fault_enumeration", "aionet", "Per-attempt outcomes x completion orders x stagger delays, and cancellation before every loop iteration of a base run; socket registry oracle (one open or none).", "Complete only for the base scenarios swept.", "connect-race outcome search + cancellation-point sweep, socket registry oracle"),
-    "C20": ("exploration", "aionet", "Senders against a peer that stops/resumes reading, loss/close/cancel in any order; write buffer empty on return, every waiter resumed or failed.", "Trusted: SimSocket capacity model for back-pressure.", "pause/resume/loss/cancel interleavings, flow-control oracle"),
+    "C19": ("fault_enumeration", "aionet", "Per-attempt outcomes x completion orders x stagger delays, and cancellation before every loop iteration of a base run; socket registry oracle (one open or none); local_address resolving to several addresses with per-address bind faults (reachability with a bindable local address).", "Complete only for the base scenarios swept.", "connect-race outcome search + cancellation-point sweep, socket registry oracle"),
+    "C20": ("exploration", "aionet", "Senders against a peer that stops/resumes reading, loss/close/cancel in any order; write buffer empty on return, every waiter resumed or failed; a later send after every sender ended (also after timed-out sends) must complete.", "Trusted: SimSocket capacity model for back-pressure.", "pause/resume/loss/cancel interleavings, flow-control oracle"),
 }
 
 DESIGN_REF = {p: f"DESIGN.md §4 {p}" for p in CLAIMS}
